@@ -33,6 +33,20 @@ fn main() {
             println!("{}", serde_json::to_string_pretty(&w.observe()).unwrap());
             0
         }
+        "run-from-base" => {
+            // run-from-base <base name> <len> <pos:Event>...   (deviation script relative to the base, FIFO regime)
+            let name = args.extra.first().cloned().unwrap_or_default();
+            let bases = explore::bases(true);
+            let b = bases.iter().find(|b| b.name == name).unwrap_or_else(|| engine::machinery_failure("no such base"));
+            let len: u32 = args.extra.get(1).and_then(|s| s.parse().ok()).unwrap_or(40);
+            let devs: Vec<(u32, world::Event)> = args.extra[2..].iter().map(|s| { let (p, e) = s.split_once(':').unwrap(); (p.parse().unwrap(), world::Event::parse(e).unwrap()) }).collect();
+            let events = explore::concretize_from(&b.world, &devs, len);
+            let w = explore::Witness { regime: "E2", base: b.events.clone(), multiset: false, events, devs };
+            let (_v, obs, log) = explore::replay_witness(&w, "C28");
+            for l in log.as_array().unwrap().iter().skip(b.events.len()) { println!("{}", l.as_str().unwrap()); }
+            println!("{}", serde_json::to_string(&obs["nodes"]).unwrap());
+            0
+        }
         "show-script" => {
             // show-script <len> <pos:Event>...   e.g. show-script 120 6:Isolate(0)
             let len: u32 = args.extra.first().and_then(|s| s.parse().ok()).unwrap_or(100);
